@@ -51,28 +51,22 @@ FIXED = [
 def run(ctx):
     thorough = ctx.tier == 'thorough'
     exe = tc.build(ctx)
-    cfgs = [('MC_seq0_cancel.cfg', 'deterministic program, kLightweight, repaired shape'),
-            ('MC_seq0_cancel_heavy.cfg', 'deterministic program, kHeavy, repaired shape'),
-            ('MC_exc_cancel.cfg', 'cancel by exception, TaskSet'),
-            ('MC_nested1.cfg', 'ParentCascadeCancel: set nested in a task, parent cancelled from a second thread')]
-    if thorough:
-        cfgs += [('MC_cts_cancel.cfg', 'ConcurrentTaskSet, second thread cancels at any point'),
-                 ('MC_nested.cfg', 'ParentCascadeCancel through a set nested in a task'),
-                 ('MC_seq_cancel.cfg', 'cancel; overload; schedule on a 1-thread pool')]
-    tc.check_models(ctx, cfgs, WHAT)
-    for cfg in ('MC_seq0_cancel_unfixed.cfg', 'MC_seq0_cancel_unfixed_heavy.cfg') + (('MC_cts_cancel_unfixed.cfg',) if thorough else ()):
+    tc.check_models(ctx, 'MC_c04_thorough.cfg' if thorough else 'MC_c04_quick.cfg', WHAT,
+                    'deterministic cancel-overload-schedule (kLightweight, kHeavy, repaired shape); cancel by exception; cascade into a nested set'
+                    + ('; second thread cancels at any point; 1-thread pool variant' if thorough else ''))
+    for cfg in (('MC_seq0_cancel_unfixed.cfg', 'MC_seq0_cancel_unfixed_heavy.cfg', 'MC_cts_cancel_unfixed.cfg') if thorough else ('MC_c04_unfixed.cfg',)):
         tc.expect_model_violation(ctx, cfg, 'NoStartAfterCancel', WHAT, 'unrepaired code shape must show the counterexample: ' + cfg)
     rng = random.Random(ctx.seed * 7919 + 4)
     g = tc.Gen(rng)
     n = 6 if thorough else 2
-    r0 = tc.run_scenarios(ctx, exe, DETERMINISTIC, WHAT, 2, ctx.seed, 'deterministic cancel-overload-schedule')
-    r0b = tc.run_scenarios(ctx, exe, CASCADE, WHAT, 2, ctx.seed + 3, 'directed parent cascade')
-    r1 = tc.run_scenarios(ctx, exe, FIXED if thorough else FIXED[ctx.seed % 2::2], WHAT, n, ctx.seed + 1, 'fixed programs')
     scens = [g.single(throws=0.15, cancel=0.9, nested=0.5, pools=(0, 1, 1, 2, 3)) for _ in range(60 if thorough else 8)]
-    r2 = tc.run_scenarios(ctx, exe, scens, WHAT, n, ctx.seed + 2, 'random programs with cancels')
-    ctx.cov['executions'] = {'deterministic': r0['executions'], 'cascade': r0b['executions'], 'fixed': r1['executions'], 'random': r2['executions']}
+    r = tc.run_scenarios(ctx, exe, [
+        ('deterministic cancel-overload-schedule', DETERMINISTIC, 1),
+        ('directed parent cascade', CASCADE, 2),
+        ('fixed programs', FIXED if thorough else FIXED[ctx.seed % 2::2], n),
+        ('random programs with cancels', scens, n)], WHAT, ctx.seed)
     ctx.sample({'programs': DETERMINISTIC[:2] + scens[:3]})
-    if r0['traces']:
-        ctx.sample_trace(r0['traces'][0], 14, skip=8)
+    if r['traces']:
+        ctx.sample_trace(r['traces'][0], 14, skip=8)
     ctx.assumptions += tc.ASSUME + ['R2: a body starts at the cancellation check that guards it; the check-then-run window is not a violation',
                                     'an exception cancels only the set that captured it (trySetCurrentException does not cascade)']
